@@ -698,7 +698,7 @@ class C09(Prop):
             "kind tuples of arity <= 2 (all) and 3 (sampled) x boundary counts {MinInt64, -len-1, -len, -1, 0, 1, len-1, "
             "len, len+1, 1000, 67108865, 4611686018427387904, 9223372036854775807}; (c) data maps with nil pointers, pointers, structs, all integer widths, nested "
             "unsupported values. Boundary counts include 2^26+1, 2^62 and MaxInt64 (oversized repeat/decimal counts). "
-            "Non-trivial: the program contains at least one operator, call or directive.")
+            "Non-trivial: the program contains at least one operator, call or directive. @dump of random nested values (model = implementation wherever the model answers).")
     explanation = ("Correspondence: render model = implementation (the model marks every Go panic site with an explicit "
                    "Panic outcome). Oracle: the implementation returned output or an error, never panicked or crashed; "
                    "evaluation errors carry a line >= 1.")
@@ -830,6 +830,25 @@ class C09(Prop):
         for i, b in enumerate(bad):
             for src in ["{{ v }}", "x", "{{ v.F }}", "@each(e in v){{ e }}@end", "{{ v.email ? 'yes' : 'no' }}{{ v.p }}{{ v[0] }}", "@dump(v)"][:5]:
                 lines.append("C09:d%d_%d\trender\t%s\t%s" % (i, len(lines), hx(src), hx("((%s %s))" % (hx("v"), b))))
+        # @dump of every kind of value (nested arrays / objects, strings with quotes, control characters and markup, floats,
+        # data-supplied values, results of built-ins): the model has Object.Dump and the frame; a failing argument and bytes
+        # >= 128 in a string are not modelled (the run still demands: no panic)
+        DATOMS = ["1", "-7", "0", "2.5", "-0.5", "1000000.0", "'a'", "\"q'x\"", "'<b>&'", "''", "true", "false", "nil", "nn", "sv", "av", "ov", "bv",
+                  "[ ]", "{}", "1 + 2", "'a' + 'b'", "nn * 2.5", "av[0]", "av.len()", "sv.upper()", "[1, 2].reverse()", "nn > 2", "!bv",
+                  "nn > 2 ? 'y' : [1]", "9223372036854775807", "1 / 3.0", "'tab\\there'", "'é'", "zz", "1 / 0"]
+
+        def dval(d):
+            k = rng.random()
+            if d <= 0 or k < 0.5:
+                return rng.choice(DATOMS)
+            if k < 0.75:
+                return "[" + ", ".join(dval(d - 1) for _ in range(rng.choice([0, 1, 2, 3]))) + "]"
+            ks = rng.sample(["a", "b", "zeta", "Alpha", "k1", "id", "ID"], rng.choice([0, 1, 2, 3]))
+            return "{" + ", ".join("%s: %s" % (k_, dval(d - 1)) for k_ in ks) + "}"
+        for i in range({"quick": 300, "thorough": 4000, "search": 600}[tier]):
+            args = ", ".join(dval(3) for _ in range(rng.choice([0, 1, 1, 2, 3])))
+            src = rng.choice(["", "x", "{{ nn }}"]) + "@dump(%s)" % args + rng.choice(["", " y", "@dump(1)"])
+            lines.append("C09:p%d\trender\t%s\t%s" % (i, hx(src), data))
         return lines, {"exhaustive": False, "distribution": distribution([s.encode() for s in srcs]),
                        "builtin_cases": sum(1 for s in srcs if s.startswith("{{ ") and "(" in s)}
 
@@ -1713,6 +1732,47 @@ class C07(Prop):
         for j, (page, out) in enumerate(NEST):
             cons = ["ok:0", "nopanic"] + (["out:1:" + hx(out)] if out is not None else [])
             lines.append(tree_case("C07:n%d" % j, [("tpl/page.tw", "file", page)] + comps, [op_new("tpl", ".tw"), op_string("page", TREE_DATA)], cons))
+        # random pages with uses nested in slot bodies, inserts, loops and conditionals to depth 3 (model = implementation;
+        # load errors for undeclared slots included)
+        rcomps = [("tpl/components/a.tw", "file", "[@slot]"), ("tpl/components/b.tw", "file", "<{{ x }}:@slot('s')|@slot>"),
+                  ("tpl/components/c.tw", "file", "C{{ y }}"), ("tpl/components/e.tw", "file", "@if(x > 1)big@slot('s')@else small@slot@end"),
+                  ("tpl/layouts/m.tw", "file", "<L>@reserve('t')|@each(i in [1, 2])@reserve('b')@end</L>")]
+
+        def body(d):
+            parts = []
+            for _ in range(rng.choice([1, 1, 2, 3])):
+                k = rng.random()
+                if d <= 0 or k < 0.3:
+                    parts.append(rng.choice(["t", "{{ n }}", "{{ x }}", "<p>", "{{ i }}"]))
+                elif k < 0.45:
+                    parts.append("@if(flag)" + body(d - 1) + "@else" + body(d - 1) + "@end")
+                elif k < 0.55:
+                    parts.append("@each(i in [1, 2])" + body(d - 1) + "@end")
+                else:
+                    parts.append(nuse(d - 1))
+            return "".join(parts)
+
+        def nuse(d):
+            c = rng.choice(["a", "b", "c", "e"])
+            if c == "a":
+                return "@component('~a')" + (("@slot" + body(d) + "@end@end") if rng.random() < 0.8 else "")
+            if c == "c":
+                return "@component('~c', {y: %s})" % rng.choice(["1", "n", "x", "i"])
+            sl = []
+            if rng.random() < 0.7:
+                sl.append("@slot('s')" + body(d) + "@end")
+            if rng.random() < 0.7:
+                sl.append("@slot" + body(d) + "@end")
+            rng.shuffle(sl)
+            return "@component('~%s', {x: %s})" % (c, rng.choice(["2", "n", "1", "i"])) + ("".join(sl) + "@end" if sl else "")
+
+        for j in range({"quick": 150, "thorough": 2000, "search": 400}[tier]):
+            pg = body(3)
+            if rng.random() < 0.3:
+                pg = "@use('~m')@insert('t', n)@insert('b')" + pg + "@end"
+            else:
+                pg = "{{ x = 5 }}{{ i = 0 }}" + pg
+            lines.append(tree_case("C07:r%d" % j, [("tpl/pg.tw", "file", pg)] + rcomps, [op_new("tpl", ".tw"), op_string("pg", TREE_DATA)], ["nopanic"]))
         return lines, {"exhaustive": False, "distribution": {"pages": n}}
 
 
